@@ -17,7 +17,7 @@ import (
 func init() {
 	core.Register(&core.Prop{
 		ID: "C19",
-		Rule: "case = one network of 2-60 (300 thorough) nodes on a jittered grid with positive, well separated coordinates (trees, grids with diagonals, two components, a long cheap detour against a short expensive chain, fast-far against slow-near) whose links are poly-lines with 0-4 bends and positive speeds over two decades, added in random order and orientation, for Distance or Time minimisation, queried at 8 point pairs (random and exactly on nodes); oracle = the harness's own graph (nodes by exact end-point equality) with Dijkstra: start/end nodes are the true nearest nodes, the returned links form a chain between them, reported totals are the sums over the returned links, the chosen cost equals the Dijkstra optimum (1e-9), disconnected pairs give an empty route; " +
+		Rule: "case = one network of 2-60 (300 thorough) nodes on a jittered grid with positive, well separated coordinates (trees, grids with diagonals, two components, a long cheap detour against a short expensive chain, fast-far against slow-near) whose links are poly-lines with 0-4 bends and positive speeds over two decades, added in random order and orientation, for Distance or Time minimisation, queried at 8 point pairs (random and exactly on nodes); 40% of networks are built incrementally in 2-4 batches with 4 queries after each batch, judged against exactly the links added so far (later AddLink calls then create new nodes and link already-existing nodes on a network that has answered queries); oracle = the harness's own graph (nodes by exact end-point equality) with Dijkstra: start/end nodes are the true nearest nodes, the returned links form a chain between them, reported totals are the sums over the returned links, the chosen cost equals the Dijkstra optimum (1e-9), disconnected pairs give an empty route; " +
 			"an evaluation is one query judged; non-trivial = query whose optimal route has >= 2 links and differs in cost from the fewest-links route; distinct by (network hash, query)",
 		Assumptions: []string{"no self loops, no parallel links (as the property states)", "queries whose nearest node is ambiguous within 1e-9 relative are skipped"},
 		Phases: []core.Phase{{Name: "networks", NumCases: func(t string) int {
@@ -28,7 +28,7 @@ func init() {
 		}}},
 		Run: run,
 		Floors: func(t string) map[string]int64 {
-			return map[string]int64{"query.connected": 5000, "query.disconnected": 200, "query.same_node": 100, "query.optimal_differs_from_fewest_links": 200, "minimise.Distance": 300, "minimise.Time": 300, "topology.detour": 100, "topology.two_components": 100, "topology.grid": 100, "topology.tree": 100, "query.on_node": 1000, "order.fastest_first": 100}
+			return map[string]int64{"query.connected": 5000, "query.disconnected": 200, "query.same_node": 100, "query.optimal_differs_from_fewest_links": 200, "minimise.Distance": 300, "minimise.Time": 300, "topology.detour": 100, "topology.two_components": 100, "topology.grid": 100, "topology.tree": 100, "query.on_node": 1000, "order.fastest_first": 100, "order.incremental_queries_between_addlinks": 300, "incremental.link_between_existing_nodes_after_query": 300}
 		},
 	})
 }
@@ -239,18 +239,6 @@ func run(c *core.Ctx, idx int) {
 		}
 		return l.length
 	}
-	hops := func(l *link) float64 { return 1 }
-	// nodes that actually carry a link
-	used := map[int]bool{}
-	for _, l := range nw.links {
-		used[l.a], used[l.b] = true, true
-	}
-	var usedIDs []int
-	for i := range nw.nodes {
-		if used[i] {
-			usedIDs = append(usedIDs, i)
-		}
-	}
 	h := core.NewHasher().Str(optName)
 	for _, l := range nw.links {
 		gen.HashGeom(h, l.line)
@@ -277,21 +265,84 @@ func run(c *core.Ctx, idx int) {
 		sortLinks(nw, func(a, b *link) bool { return a.speed < b.speed })
 		c.Count("order.slowest_first")
 	}
-	var net *route.Network
-	if c.Guard("AddLink", netDesc(), func() {
-		net = route.NewNetwork(opt)
-		for _, l := range nw.links {
-			net.AddLink(l.line, l.speed)
+	// stages: all links at once, or (incremental) a few batches with queries after each batch, so
+	// that later AddLink calls (new nodes, and links between nodes that already exist) act on a
+	// network that has already answered queries
+	full := nw
+	cuts := []int{len(full.links)}
+	if len(full.links) >= 3 && r.Chance(0.4) {
+		k := r.IntRange(1, 3)
+		seen := map[int]bool{}
+		for i := 0; i < k; i++ {
+			seen[r.IntRange(1, len(full.links)-1)] = true
 		}
-	}) {
-		return
+		cuts = cuts[:0]
+		for i := 1; i < len(full.links); i++ {
+			if seen[i] {
+				cuts = append(cuts, i)
+			}
+		}
+		cuts = append(cuts, len(full.links))
+		c.Count("order.incremental_queries_between_addlinks")
+	}
+	if c.WantSample() && len(full.links) >= 4 && len(full.links) <= 12 {
+		c.Sample(netDesc())
+	}
+	net := route.NewNetwork(opt)
+	lo := 0
+	for si, hi := range cuts {
+		if c.Guard("AddLink", netDesc(), func() {
+			for _, l := range full.links[lo:hi] {
+				net.AddLink(l.line, l.speed)
+			}
+		}) {
+			return
+		}
+		if si > 0 {
+			nodesBefore := map[int]bool{}
+			for _, l := range full.links[:lo] {
+				nodesBefore[l.a], nodesBefore[l.b] = true, true
+			}
+			for _, l := range full.links[lo:hi] {
+				if nodesBefore[l.a] && nodesBefore[l.b] {
+					c.Count("incremental.link_between_existing_nodes_after_query")
+				}
+			}
+		}
+		lo = hi
+		view := &netw{nodes: full.nodes, links: full.links[:hi], adj: map[int][]int{}}
+		for i, l := range view.links {
+			view.adj[l.a] = append(view.adj[l.a], i)
+			view.adj[l.b] = append(view.adj[l.b], i)
+		}
+		nq := 8
+		if len(cuts) > 1 {
+			nq = 4
+		}
+		if !runQueries(c, r, net, view, nq, hi, optName, weight, netDesc, h.Sum()) {
+			return
+		}
+	}
+}
+
+// runQueries judges nq random queries against the links added so far (nw is the
+// view of exactly those links). It returns false when the worker should stop
+// with this network.
+func runQueries(c *core.Ctx, r *gen.R, net *route.Network, nw *netw, nq, added int, optName string, weight func(l *link) float64, netDesc func() map[string]interface{}, netHash uint64) bool {
+	hops := func(l *link) float64 { return 1 }
+	used := map[int]bool{}
+	for _, l := range nw.links {
+		used[l.a], used[l.b] = true, true
+	}
+	var usedIDs []int
+	for i := range nw.nodes {
+		if used[i] {
+			usedIDs = append(usedIDs, i)
+		}
 	}
 	byData := map[*geom.Point]int{}
 	for i := range nw.links {
 		byData[&nw.links[i].line[0]] = i
-	}
-	if c.WantSample() && len(nw.links) >= 4 && len(nw.links) <= 12 {
-		c.Sample(netDesc())
 	}
 	nearest := func(p geom.Point) (int, bool) {
 		best, bd, second := -1, math.Inf(1), math.Inf(1)
@@ -305,7 +356,7 @@ func run(c *core.Ctx, idx int) {
 		}
 		return best, second-bd > 1e-9*(second+bd)
 	}
-	for q := 0; q < 8; q++ {
+	for q := 0; q < nq; q++ {
 		var from, to geom.Point
 		pick := func() geom.Point {
 			if r.Bool() {
@@ -326,12 +377,13 @@ func run(c *core.Ctx, idx int) {
 		c.Eval()
 		want := nw.dijkstra(s, t, weight)
 		detail := netDesc()
+		detail["links_added_so_far"] = added
 		detail["from"], detail["to"] = []float64{from.X, from.Y}, []float64{to.X, to.Y}
 		detail["start_node"], detail["end_node"], detail["optimal_cost"] = s, t, fmt.Sprint(want)
 		var rt geom.MultiLineString
 		var dist, tm, sd, ed float64
 		if c.Guard("ShortestRoute", detail, func() { rt, dist, tm, sd, ed = net.ShortestRoute(from, to) }) {
-			return
+			return false
 		}
 		// start / end distances identify the nearest nodes
 		wsd := math.Hypot(nw.nodes[s].X-from.X, nw.nodes[s].Y-from.Y)
@@ -420,9 +472,10 @@ func run(c *core.Ctx, idx int) {
 		// non-trivial: the optimum is not (one of) the fewest-links routes by cost
 		if len(rt) >= 2 && float64(len(rt)) > fewest {
 			c.Count("query.optimal_differs_from_fewest_links")
-			c.Nontrivial(core.NewHasher().U64(h.Sum()).Int(s).Int(t).Sum())
+			c.Nontrivial(core.NewHasher().U64(netHash).Int(added).Int(s).Int(t).Sum())
 		}
 	}
+	return true
 }
 
 // sortLinks reorders the links (and rebuilds the adjacency index).
